@@ -114,6 +114,24 @@ def st_spec(draw, algos, sources=None):
 
 
 @st.composite
+def st_auer_shrunk(draw):
+    """Auer with 5..7 designs of which one or two (low or arbitrary ids) lie far below the rest: they are discarded in the
+    first rounds, so that afterwards design ids and positions in the candidate set differ while the designs with gaps
+    around eps are still being decided."""
+    spec = draw(gen_runs.st_run_spec("Auer", source="stub", K=draw(st.integers(5, 7))))
+    spec["empirical"] = False
+    W = gen_runs.cone_matrix(spec["cone"])
+    u = gen_runs.interior_dir(W)
+    K = len(spec["Y"])
+    far = draw(st.lists(st.sampled_from([0, 0, 1, 1, 2, 3]), min_size=1, max_size=2, unique=True))
+    for i in far:
+        ref = np.array(spec["Y"][draw(st.integers(0, K - 1))])
+        spec["Y"][i] = [float(x) for x in ref - u * draw(st.floats(8, 40)) * spec["eps"]]
+    spec["contraction"] = draw(st.sampled_from([1, 4, 8, 16, 32]))
+    return spec
+
+
+@st.composite
 def st_rho_gt1(draw):
     """Hyper-rectangular PaVeBa types on cones with rho > 1 (obtuse 2-D cones, 3-D obtuse): where finding F8 lives."""
     algo = draw(st.sampled_from(["PaVeBaGP", "PaVeBaPartialGP"]))
@@ -132,6 +150,8 @@ COMPONENTS = [
     Component("paveba_family_stub", check_run, strategy=lambda: st_spec(["PaVeBa", "PaVeBaGP", "PaVeBaPartialGP"], ["stub"]), quick=220, thorough=8000,
               rule="adversarial stub posteriors; ellipsoidal types with K>=m facets, rectangular types K=m; batch 1..3"),
     Component("auer_stub_and_real", check_run, strategy=lambda: st_spec(["Auer"]), quick=150, thorough=6000, rule="Auer, theoretical widths, stub and real (contraction 1)"),
+    Component("auer_after_early_discards", check_run, strategy=st_auer_shrunk, quick=150, thorough=6000,
+              rule="Auer, stub posterior, 5..7 designs with one or two far-dominated ones at low ids (discarded early: ids != positions in S afterwards)"),
     Component("paveba_real_contraction1", check_run, strategy=lambda: st_spec(["PaVeBa"], ["real"]), quick=40, thorough=1500,
               rule="PaVeBa with the real empirical model at the theoretical setting"),
     Component("rect_types_rho_gt_1", check_run, strategy=st_rho_gt1, quick=120, thorough=5000,
